@@ -68,6 +68,8 @@ def run_history(hist: dict):
             try:
                 S.run_op(b, i, op, source)
                 b.outcomes.append(('ok',))
+            except S.HarnessError:
+                raise
             except Exception as e:   # noqa
                 b.outcomes.append(('exc', type(e).__name__, str(e)[:300]))
         for f in ph.get('foreign', []):
